@@ -30,6 +30,8 @@ class Obligation:
         self.solver = d.get("solver", "")
         # CBMC --max-field-sensitivity-array-size (default 64 loses constant propagation through Vec<Insn> of > 2 elements)
         self.fs = int(d.get("fs", "1024"))
+        # opt-in: disregard failures of Kani's C model of free()/__rust_dealloc (kani_lib.c) for this obligation
+        self.ignore_free_model = d.get("ignore_free_model", "") == "1"
         # props: "C01,C04:t" -> {C01: quick, C04: thorough}
         self.props = {}
         for p in d.get("props", "").split(","):
@@ -49,6 +51,9 @@ class Obligation:
         return os.path.splitext(self.src_file)[0]
 
     def harness_path(self):
+        nested = getattr(self, "nested", "")
+        if nested:
+            return "%s::%s::__verif::%s" % (self.module, nested, self.name)
         return "%s::__verif::%s" % (self.module, self.name)
 
     def wanted(self, prop, tier):
@@ -65,7 +70,11 @@ class Obligation:
 
 
 def parse_contract_file(path):
-    src_file = os.path.basename(path).replace(".kani.rs", ".rs")
+    base = os.path.basename(path).replace(".kani.rs", "")
+    nested = ""
+    if "." in base:
+        base, nested = base.split(".", 1)
+    src_file = base + ".rs"
     obs = []
     with open(path) as f:
         lines = f.read().split("\n")
@@ -85,7 +94,9 @@ def parse_contract_file(path):
                 j += 1
             if "name" not in d:
                 raise ValueError("%s:%d obligation without name" % (path, i + 1))
-            obs.append(Obligation(d, src_file, path, " ".join(desc)))
+            ob = Obligation(d, src_file, path, " ".join(desc))
+            ob.nested = nested
+            obs.append(ob)
             i = j
         else:
             i += 1
